@@ -410,3 +410,52 @@ func (v *vdrRun) valueChecks(s *vdrSnapshot) {
 		}
 	}
 }
+
+// checkNewForks: the moment of dynamic fork expansion.  A fork first seen
+// after the construction (made by cloneFork when a map call's source became
+// known) must start with the tables the node's forks were built with: the
+// fork it was cloned from has not been through any bookkeeping event yet
+// (what expanded_fork_safe / clone_keeps_holders are applied to).
+func (v *vdrRun) checkNewForks() {
+	if v.r == nil || v.r.ps == nil || v.r.Inc > 0 {
+		return
+	}
+	views := v.r.ps.VerifVdrView()
+	if v.knownForks == nil {
+		v.knownForks = map[string]bool{}
+		for i := range views {
+			v.knownForks[fmt.Sprint(views[i].Node, "#", views[i].Index)] = true
+		}
+		return
+	}
+	if len(views) == len(v.knownForks) {
+		return
+	}
+	for i := range views {
+		f := &views[i]
+		// (a fork is identified by its position: its name changes when its fork id is resolved)
+		key := fmt.Sprint(f.Node, "#", f.Index)
+		if v.knownForks[key] {
+			continue
+		}
+		v.knownForks[key] = true
+		init, ok := v.initView[f.Node]
+		if !ok {
+			continue
+		}
+		v.hist("dynamic-fork-first-seen")
+		if got, want := vdrTablesOf(f), vdrTablesOf(&init); got != want {
+			v.violate("C04", "correspondence", "C04:model:clone-moment",
+				fmt.Sprintf("fork %s, made by dynamic fork expansion, does not start with the bookkeeping its node was built with: %s, built %s", f.Fqname, got, want),
+				map[string]interface{}{"event": len(v.r.Events), "state": f.State, "siblings": func() map[string]string {
+					o := map[string]string{}
+					for j := range views {
+						if views[j].Node == f.Node {
+							o[views[j].Fqname] = string(views[j].State) + " " + vdrTablesOf(&views[j])
+						}
+					}
+					return o
+				}()})
+		}
+	}
+}
